@@ -226,10 +226,18 @@ func e3RunKill(sc e3Scenario, K int, variant string, traceFile string) (res e3Ki
 	}
 	// (iii) application keeps running while litestream is dead, then a fresh worker resumes unaided.
 	s.Remote, s.RemoteDead = nil, false
-	if variant == "app-continues" {
+	switch variant {
+	case "app-continues":
 		s.Do("W1")
 		s.Do("CK:TRUNCATE")
 		s.Do("W1")
+	case "app-restarts-wal":
+		// more commits in the same WAL generation, a checkpoint that backfills everything WITHOUT truncating, then
+		// a commit that restarts the WAL: the new generation is shorter than the position litestream had reached
+		s.Do("U")
+		s.Do("W1")
+		s.Do("CK:FULL")
+		s.Do("U")
 	}
 	p2, err := startWorker(s.Dir, sc.Cfg, "")
 	if err != nil {
@@ -316,7 +324,7 @@ func c03(args []string) int {
 			{"restore+close", base, f("W3 SW W1 SW RESTORE:restored CL")},
 		}
 	}
-	variants := []string{"idle", "app-continues"}
+	variants := []string{"idle", "app-continues", "app-restarts-wal"}
 	if _, err := os.Stat(killatPath()); err != nil {
 		fmt.Fprintln(os.Stderr, "killat binary missing (run setup.sh):", err)
 		return 2
@@ -399,7 +407,7 @@ func c03(args []string) int {
 		var jobs []job
 		for k := 1; k <= n; k++ {
 			for _, v := range variants {
-				if !thorough && v == "app-continues" && k%2 == 0 {
+				if !thorough && (v == "app-continues" && k%2 == 0 || v == "app-restarts-wal" && k%3 != 0) {
 					// quick tier: the second variant on every other kill point (stated in the evidence)
 					continue
 				}
@@ -502,7 +510,7 @@ func c03(args []string) int {
 		},
 		Coverage: map[string]any{
 			"evaluations": evals, "distinct_nontrivial": len(outcomes),
-			"rule":    "for each scenario the worker's mutating syscalls are recorded twice (determinism gate) and every one of them is a kill point; after the kill: all final-named LTX files verify, restore output complete or absent, last acknowledged state restorable, then (variants: nothing / application writes+TRUNCATE checkpoint) a fresh worker must SyncAndWait successfully and satisfy the page-exact restore oracle; distinct = distinct (syscall, operation in flight) classes",
+			"rule":    "for each scenario the worker's mutating syscalls are recorded twice (determinism gate) and every one of them is a kill point; after the kill: all final-named LTX files verify, restore output complete or absent, last acknowledged state restorable, then (variants: nothing / application writes+TRUNCATE checkpoint / application commits+FULL checkpoint+commit restarting the WAL) a fresh worker must SyncAndWait successfully and satisfy the page-exact restore oracle; distinct = distinct (syscall, operation in flight) classes",
 			"samples": samples, "exhaustive": exhaustive, "scenarios": reports, "kills_effective": killed,
 			"kill_classes": top,
 			"variants":     "idle at every kill point; app-continues at every kill point (thorough) / every other kill point (quick)",
